@@ -237,10 +237,10 @@ def make_trch(mode):
 
 
 def _exp_inst(tier):
-    out = [{"qs": [2], "mode": 0, "grace": True}, {"qs": [3], "mode": 5, "min_ppq": 10, "grace": True}, {"qs": [2, 3], "mode": 0, "pin_second": True},
-           {"qs": [4, 6], "mode": 2, "pin_second": True}, {"qs": [2], "mode": 4, "pickup": True}]
+    out = [{"qs": [2], "mode": 0, "grace": True}, {"qs": [3], "mode": 5, "min_ppq": 10, "grace": True}, {"qs": [2, 3], "mode": 2, "pin_second": True},
+           {"qs": [2], "mode": 4, "pickup": True}]
     if tier != "quick":
-        out += [{"qs": [2, 3], "mode": 0}, {"qs": [4, 6], "mode": 2}, {"qs": [2, 3], "mode": 3}, {"qs": [12, 8], "mode": 5}, {"qs": [1], "mode": 1},
+        out += [{"qs": [2, 3], "mode": 0, "pin_second": True}, {"qs": [4, 6], "mode": 2, "pin_second": True}, {"qs": [2, 3], "mode": 0}, {"qs": [4, 6], "mode": 2}, {"qs": [2, 3], "mode": 3}, {"qs": [12, 8], "mode": 5}, {"qs": [1], "mode": 1},
                 {"qs": [2], "mode": 0, "pickup": True, "anacrusis": "pad_bar"},
                 {"qs": [3], "mode": 3, "pickup": True, "anacrusis": "time_sig_change"},
                 {"qs": [4, 6], "mode": 4, "min_ppq": 100}]
@@ -286,7 +286,7 @@ HARNESSES = [
       bounds="concrete replay harness for engine B models; symbolic run is a no-op enumeration guard"),
     H("export", make_export, _exp_inst,
       models=["syminterp", "symdict", "symnp:partitura.score,partitura.io.exportmidi", "symdict_exportmidi", "realdict_generic"],
-      budget={"quick": 150, "thorough": 900},
+      budget={"quick": 250, "thorough": 1200},
       functions=["exportmidi.save_score_midi", "exportmidi.get_ppq", "exportmidi.map_to_track_channel",
                  "Part.quarter_map", "Part.notes_tied", "GenericNote.duration_tied", "Part.time_signature_map"],
       bounds="1-2 parts with listed divisions, two measures (optional one-quarter-short pickup), two notes per part "
